@@ -138,4 +138,15 @@ PROPS = {
             "the statement 'any chunking of the concatenated frames yields exactly the frames' is checked by the harness at every split point and on random chunkings; the Lean file proves its two ingredients (a complete frame decodes to itself leaving the rest; every proper prefix of a frame is 'need more')",
         ],
     },
+    "C10": {
+        "lean_modules": ["DocsModel.Props.C10"],
+        "trusted_base": COMMON_TRUST + [
+            "tokio scheduling, tokio::io::duplex, tokio_util::codec framing and the real quic streams are not modelled; the model is a function of the finite frame list the peer sends",
+            "hook H3 (export of run_alice, BobState and the frame codec); H1 (global clock)",
+        ],
+        "assumptions": [
+            "a peer that keeps the stream open and silent is outside the quantifier (streams are finite frame lists followed by a close)",
+            "the local failure is injected between two messages (lockstep with the scripted peer); failures in the middle of a store call are not modelled",
+        ],
+    },
 }
